@@ -199,7 +199,11 @@ func (en *Engine) step(st *State) []*State {
 			return nil
 		}
 		en.noteWrite(st, p, posOf(en, x.Pos()))
-		en.store(st, p, en.get(st, f, x.Val))
+		if p.View != 0 && p.Word != nil {
+			en.viewStore(st, p, en.get(st, f, x.Val).(*Term))
+		} else {
+			en.store(st, p, en.get(st, f, x.Val))
+		}
 	case *ssa.Convert:
 		f.env[x] = en.execConvert(st, f, x)
 	case *ssa.ChangeType:
@@ -512,6 +516,9 @@ func (en *Engine) execUnOp(st *State, f *Frame, x *ssa.UnOp) Value {
 			return OpaqueV{What: "nil deref"}
 		}
 		en.noteRead(st, p, posOf(en, x.Pos()))
+		if p.View != 0 && p.Word != nil {
+			return en.viewLoad(st, p)
+		}
 		return en.load(st, p, x.Type())
 	case token.NOT:
 		return Not(v.(*Term))
@@ -534,6 +541,12 @@ func (en *Engine) execIndexAddr(st *State, f *Frame, x *ssa.IndexAddr) Value {
 			en.require(st, "nil", False(), "index through nil array pointer", posOf(en, x.Pos()))
 			st.done, st.infeasible = true, true
 			return PtrV{}
+		}
+		if b.View != 0 {
+			en.require(st, "index", And(Le(ConstI(0), idx), Lt(idx, ConstI(int64(b.Words)))), "index into word view in range", posOf(en, x.Pos()))
+			nb := b
+			nb.Word = idx
+			return nb
 		}
 		at := x.X.Type().Underlying().(*types.Pointer).Elem().Underlying().(*types.Array)
 		en.require(st, "index", And(Le(ConstI(0), idx), Lt(idx, ConstI(at.Len()))), fmt.Sprintf("index into [%d]%s in range", at.Len(), at.Elem()), posOf(en, x.Pos()))
@@ -624,8 +637,18 @@ func (en *Engine) execConvert(st *State, f *Frame, x *ssa.Convert) Value {
 		if t, ok := v.(*Term); ok {
 			return en.convertInt(st, t, from, to)
 		}
-		if p, ok := v.(PtrV); ok { // uintptr(unsafe.Pointer)
-			return OpaqueV{What: "address of " + p.String()}
+		if p, ok := v.(PtrV); ok { // uintptr(unsafe.Pointer): an arbitrary (public) address
+			name := "addr$nil"
+			if p.R != nil {
+				name = "addr$" + sanitize(p.String())
+			}
+			a := Var(name, SInt)
+			if !st.typed[a.id] {
+				st.typed[a.id] = true
+				st.assume(Le(ConstI(0), a))
+				st.assume(Lt(a, Const(pow2(wordBits))))
+			}
+			return a
 		}
 	}
 	switch tu := to.Underlying().(type) {
@@ -683,9 +706,46 @@ func (en *Engine) stringToBytes(st *State, f *Frame, s StringV) Value {
 	return SliceV{R: r, Off: ConstI(0), Len: s.Len, Cap: s.Len, Elem: et}
 }
 
+// unsafeCast models (*[n]uintK)(unsafe.Pointer(&b[0])) as a little-endian word view of the byte array b.
+// (The only use in the module is a per-word mask-select, whose byte-level effect does not depend on byte order.)
 func (en *Engine) unsafeCast(st *State, p PtrV, elem types.Type) Value {
-	fail("unsafe pointer cast to *%s unsupported", elem)
-	return nil
+	at, ok := elem.Underlying().(*types.Array)
+	if !ok {
+		fail("unsafe pointer cast to *%s unsupported", elem)
+	}
+	bits, signed, ok := intInfo(at.Elem())
+	if !ok || signed || bits%8 != 0 {
+		fail("unsafe pointer cast to *%s unsupported", elem)
+	}
+	if p.R == nil || len(p.Path) == 0 || p.Path[len(p.Path)-1].Idx == nil || !Eq(p.Path[len(p.Path)-1].Idx, ConstI(0)).IsTrue() {
+		fail("unsafe pointer cast of a pointer that is not the address of element 0 of a byte array")
+	}
+	base := PtrV{R: p.R, Path: p.Path[:len(p.Path)-1]}
+	c, t := en.loadPath(st, en.regionCell(st, base.R), base.Path, base.R.typ)
+	ba, ok := t.Underlying().(*types.Array)
+	if !ok || ba.Len() != at.Len()*int64(bits/8) {
+		fail("unsafe pointer cast: size mismatch")
+	}
+	_ = c
+	en.unsafeUses[en.curFunc+": byte array viewed as "+elem.String()] = true
+	return PtrV{R: base.R, Path: base.Path, View: bits / 8, Words: int(at.Len())}
+}
+
+func (en *Engine) viewLoad(st *State, p PtrV) Value {
+	var ts []*Term
+	for i := 0; i < p.View; i++ {
+		idx := Add(MulC(p.Word, bi(int64(p.View))), ConstI(int64(i)))
+		b := en.load(st, PtrV{R: p.R, Path: appendPath(p.Path, PathEl{Idx: idx})}, types.Typ[types.Uint8]).(*Term)
+		ts = append(ts, MulC(b, pow2(8*i)))
+	}
+	return Add(append(ts, ConstI(0))...)
+}
+
+func (en *Engine) viewStore(st *State, p PtrV, v *Term) {
+	for i := 0; i < p.View; i++ {
+		idx := Add(MulC(p.Word, bi(int64(p.View))), ConstI(int64(i)))
+		en.store(st, PtrV{R: p.R, Path: appendPath(p.Path, PathEl{Idx: idx})}, en.mmod(st, en.mdiv(st, v, pow2(8*i)), pow2(8)))
+	}
 }
 
 func (en *Engine) execTypeAssert(st *State, f *Frame, x *ssa.TypeAssert) []*State {
@@ -765,9 +825,9 @@ func (en *Engine) applyCut(st *State, f *Frame, cs *CutSpec) {
 	o := en.addObl(st, "cut@"+label, g, fmt.Sprintf("cut (%s): %s", label, cs.Assert.Src), cs.Assert.Line)
 	o.Alg = true
 	// continue with the entry assumptions and the cut assertions only
-	nfacts := len(st.facts)
-	_ = nfacts
-	st.facts = append([]*Term(nil), st.persist...)
+	if !cs.Keep {
+		st.facts = append([]*Term(nil), st.persist...)
+	}
 	for _, h := range cs.Havoc {
 		id, ok := h.Expr.(*ast.Ident)
 		if !ok {
@@ -797,9 +857,17 @@ func (en *Engine) applyCut(st *State, f *Frame, cs *CutSpec) {
 	sc2.locals = en.localsResolver(st, f)
 	before := len(st.facts)
 	st.assume(sc2.evalBool(cs.Assert.Expr))
+	if cs.Assume != nil {
+		st.assume(sc2.evalBool(cs.Assume.Expr))
+		en.assumedUsed[en.curFunc+" (bridge assumed at cut: "+cs.Assume.Src+")"] = true
+	}
 	// havoc typing facts and the assertion persist across later cuts
-	st.persist = append(st.persist, st.facts[len(st.persist):before]...)
-	st.persist = append(st.persist, st.facts[before:]...)
+	if cs.Keep {
+		st.persist = append(st.persist, st.facts[before:]...)
+	} else {
+		st.persist = append(st.persist, st.facts[len(st.persist):before]...)
+		st.persist = append(st.persist, st.facts[before:]...)
+	}
 }
 
 // namedCuts applies cuts anchored at "before call NAME#K", "after call NAME#K" or "after store LOCAL".
@@ -890,7 +958,10 @@ func (en *Engine) cutAnchors(fn *ssa.Function, fc *FuncContract) *cutAnchorSet {
 			}
 		}
 		if target == nil {
-			fail("cut anchor %q does not exist in %s", cs.Anchor, fn.Name())
+			// the code no longer has this anchor: the lemma is dropped and the obligations that
+			// needed it have to stand on their own
+			en.missingAnchors[fmt.Sprintf("%s: %s", fn.Name(), cs.Anchor)] = true
+			continue
 		}
 		ac := anchoredCut{idx: i, cs: cs}
 		if parts[0] == "before" {
